@@ -28,4 +28,5 @@ var All = map[string]func(*Ctx){
 	"C12": C12,
 	"C13": C13,
 	"C14": C14,
+	"C15": C15,
 }
